@@ -831,6 +831,21 @@ pub fn gen(prop: &str, tier: &str, seed: u64) -> Vec<String> {
                 fam_unary("comps", win, &d, &mut out);
                 fam_unary("hash", win, &d, &mut out);
             }
+            // `to_str` and the lossy / Display text against Spec/Lossy.lean: every byte string over the
+            // class edges of UTF-8 lead and continuation bytes (incl. separators and a dot), the UTF-8
+            // domain, and the long realistic paths with raw high bytes
+            for s in strings_b(b"/.a\x7f\x80\x8f\x90\x9f\xa0\xbf\xc1\xc2\xdf\xe0\xe1\xec\xed\xee\xef\xf0\xf1\xf3\xf4\xf5\xff", if t { 4 } else { 3 }) {
+                out.push(format!("lossy {}", hex(&s)));
+            }
+            for s in d.iter() {
+                out.push(format!("lossy {}", hex(s)));
+            }
+            for s in utf8_dom(tier, seed).iter().step_by(if t { 1 } else { 5 }) {
+                out.push(format!("lossy {}", hex(s)));
+            }
+            for s in dom_unix_small(tier, seed).iter().chain(dom_win_small(tier, seed).iter()) {
+                out.push(format!("lossy {}", hex(s)));
+            }
         }
         "C20" => {
             // every method of every type family (bytes, UTF-8, typed, UTF-8 typed, platform, UTF-8
